@@ -86,7 +86,7 @@ C["C06"] = dict(level="other",
  stubs=["zzMsgs", "funcs model", "zzBytesCodec"],
  bounds={"calls": "2 (thorough 3)", "schedules": SCHED, "pool policy": "LIFO reuse"},
  outside=["json header (copies strings)", "reply marshal errors"],
- runs={"quick": [run("CLI", labels=["error-text-of-own-call", "reply-untouched-on-error", "no-error", "reply-of-own-args"]), run("SRV", params={"srv.kinds": 7}, labels=SRV_C06), run("SRV", params={"srv.kinds": 3, "srv.menu": 2, "srv.encoders": 3, "srv.concrete": 1}, labels=SRV_C06 + ["unencodable-reply-text"]), run("C06w"), run("C06x")],
+ runs={"quick": [run("CLI", params={"cli.encoders": 3}, labels=["error-text-of-own-call", "reply-untouched-on-error", "no-error", "reply-of-own-args"]), run("SRV", params={"srv.kinds": 7}, labels=SRV_C06), run("SRV", params={"srv.kinds": 3, "srv.menu": 2, "srv.encoders": 3, "srv.concrete": 1}, labels=SRV_C06 + ["unencodable-reply-text"]), run("C06w"), run("C06x")],
        "thorough": [run("CLI", params={"cli.K": 3}, labels=["error-text-of-own-call", "reply-untouched-on-error", "no-error", "reply-of-own-args"], budget=900), run("SRV", params={"srv.kinds": 7, "srv.N": 3, "srv.arglens": 1, "srv.bufsizes": 1}, labels=SRV_C06, budget=2400), run("C06w"), run("C06x"), run("C06x", P=1, gran=1, budget=900)]})
 
 C["C07"] = dict(level="other",
@@ -117,7 +117,7 @@ C["C09"] = dict(level="other",
  stubs=["zzMsgs", "stub listener/socket for Server.listen", "funcs model", "zzBytesCodec"],
  bounds={"streams": "1", "messages per direction": "client harness 2 (thorough 3); server harness 1 (thorough 2)", "schedules": SCHED},
  outside=["several streams on one connection", "interleaving with unary calls beyond the one made after close"],
- runs={"quick": [run("STRc", labels=["all-messages-delivered", "message-after-failed-write-delivered", "messages-in-order-unmodified", "stream-opened", "open-request-flags"]), run("STRs", params={"str.W": 2, "str.R": 2}, labels=["handler-received-every-message", "handler-messages-in-order-unmodified", "pushes-written", "pushes-in-order-unmodified", "ack-precedes-first-push"])],
+ runs={"quick": [run("STR2", labels=["all-messages-delivered", "messages-in-order-unmodified", "stream-opened", "unary-call-unaffected-by-streams"]), run("STRc", labels=["all-messages-delivered", "message-after-failed-write-delivered", "messages-in-order-unmodified", "stream-opened", "open-request-flags"]), run("STRs", params={"str.W": 2, "str.R": 2}, labels=["handler-received-every-message", "handler-messages-in-order-unmodified", "pushes-written", "pushes-in-order-unmodified", "ack-precedes-first-push"])],
        "thorough": [run("STRc", params={"str.N": 3}, labels=["all-messages-delivered", "message-after-failed-write-delivered", "messages-in-order-unmodified", "stream-opened", "open-request-flags"]), run("STRs", params={"str.W": 2, "str.R": 2}, labels=["handler-received-every-message", "handler-messages-in-order-unmodified", "pushes-written", "pushes-in-order-unmodified", "ack-precedes-first-push"], budget=900)]})
 
 C["C10"] = dict(level="other",
@@ -186,7 +186,7 @@ C["C16"] = dict(level="other",
  stubs=["zzRT (RoundTripper)", "clock", "timers fire at quiescent points"],
  bounds={"operations": "quick 2, thorough 3", "target menu": "6 lists over {a,b,c} incl. duplicates/empty", "ticks": "2"},
  outside=["concurrent Update and Call (sequential histories)", "longer histories"],
- runs={"quick": [run("CLT", params={"clt.S": 2}, labels=CLT_C16), run("CLT", params={"clt.S": 2, "clt.slowping": 1, "clt.ticks": 1}, labels=CLT_C16, budget=300), run("C18u", labels=["routed-to-current-target", "live-list-rebuilt-after-update"]), run("C16p", labels=CLT_C16, budget=300), run("C16h", labels=CLT_C16)], "thorough": [run("C16p", params={"c16p.policies": 3}, labels=CLT_C16, budget=900), run("C16h", params={"c16h.allpolicies": 1, "c16h.firsts": 2, "clt.ticks": 2}, labels=CLT_C16, budget=1500), run("CLT", params={"clt.S": 3}, labels=CLT_C16, budget=1500), run("CLT", params={"clt.S": 3, "clt.slowping": 1, "clt.ticks": 1}, labels=CLT_C16, budget=2400), run("C18u", labels=["routed-to-current-target", "live-list-rebuilt-after-update"])]})
+ runs={"quick": [run("CLT", params={"clt.S": 2, "clt.forms": 5}, labels=CLT_C16), run("CLT", params={"clt.S": 2, "clt.slowping": 1, "clt.ticks": 1}, labels=CLT_C16, budget=300), run("C18u", labels=["routed-to-current-target", "live-list-rebuilt-after-update"]), run("C16p", labels=CLT_C16, budget=300), run("C16h", labels=CLT_C16)], "thorough": [run("C16p", params={"c16p.policies": 3}, labels=CLT_C16, budget=900), run("C16h", params={"c16h.allpolicies": 1, "c16h.firsts": 2, "clt.ticks": 2}, labels=CLT_C16, budget=1500), run("CLT", params={"clt.S": 3}, labels=CLT_C16, budget=1500), run("CLT", params={"clt.S": 3, "clt.slowping": 1, "clt.ticks": 1}, labels=CLT_C16, budget=2400), run("C18u", labels=["routed-to-current-target", "live-list-rebuilt-after-update"])]})
 
 C["C17"] = dict(level="other",
  explanation="Data-level symbolic execution of schedule/minHeap/heapDown/list/target.Update: round-robin from any cursor gives n distinct targets in n picks; Random picks list[i] for an arbitrary i in range; after minHeap the root is minimal and the heap is a permutation (arbitrary 64-bit latencies); LeastTime probes iff lastTime+Tick < now (symbolic clock and Tick), at most one probe per Tick, otherwise picks a minimal-latency target; target.Update follows the documented branch structure and its EWMA term equals the reference formula under IEEE-754 (differential query).",
